@@ -19,9 +19,14 @@ import (
 )
 
 var smMode bool
+var emMode bool // engine mode: script mode with the requests of findBug (Go.EM)
+var smMonad = "Go.SM"
 var smPartial func(n ast.Node) bool
 
 func (m *imp) mon() string {
+	if m.em {
+		return "Go.EM"
+	}
 	if m.sm {
 		return "Go.SM"
 	}
@@ -30,7 +35,7 @@ func (m *imp) mon() string {
 
 func (m *imp) fuelOut() string {
 	if m.sm {
-		return "Go.SM.fuel"
+		return m.mon() + ".fuel"
 	}
 	return ".error .fuel"
 }
@@ -38,9 +43,32 @@ func (m *imp) fuelOut() string {
 // a `Go.M` computation where the function's monad is expected
 func (m *imp) lift(code string) string {
 	if m.sm {
-		return "(Go.SM.ofM " + code + ")"
+		return "(" + m.mon() + ".ofM " + code + ")"
 	}
 	return code
+}
+
+// engine mode: statements that only feed the log or the bookkeeping of durations
+func (m *imp) emSkip(st ast.Stmt) bool {
+	timeVar := func(e ast.Expr) bool {
+		id, ok := e.(*ast.Ident)
+		return ok && (id.Name == "start" || id.Name == "dt" || id.Name == "total")
+	}
+	switch x := st.(type) {
+	case *ast.ExprStmt:
+		return strings.HasSuffix(exprText(m.p.fset, x.X), ".Helper()")
+	case *ast.IfStmt:
+		return exprText(m.p.fset, x.Cond) == "t.shouldLog()" && x.Else == nil
+	case *ast.AssignStmt:
+		return len(x.Lhs) == 1 && timeVar(x.Lhs[0])
+	}
+	return false
+}
+
+// the early-exit test of findBug: time.Until(deadline) < total/time.Duration(iter)*5
+func (m *imp) isEarlyTest(n ast.Node) bool {
+	b, ok := n.(*ast.BinaryExpr)
+	return ok && m.em && b.Op == token.LSS && exprText(m.p.fset, b.X) == "time.Until(deadline)"
 }
 
 // partialX: partial, but a method call that has been bound to a name already (hoistCalls) is a name
@@ -60,6 +88,10 @@ func (m *imp) partialX(e ast.Node) bool {
 				return false
 			}
 		}
+		if n != nil && m.smEffect(n) {
+			found = true
+			return false
+		}
 		switch x := n.(type) {
 		case *ast.IndexExpr:
 			found = true
@@ -68,11 +100,7 @@ func (m *imp) partialX(e ast.Node) bool {
 				found = true
 			}
 		case *ast.CallExpr:
-			if isLEUint64(x) || m.smEffect(x) {
-				found = true
-			}
-		case *ast.SelectorExpr:
-			if m.smEffect(x) {
+			if isLEUint64(x) {
 				found = true
 			}
 		}
@@ -99,6 +127,12 @@ func (m *imp) viewRead(x *ast.SelectorExpr) (effect string, ty gty, ok bool) {
 
 // is evaluating n (itself, not its children) an effect of script mode
 func (m *imp) smEffect(n ast.Node) bool {
+	if m.isEarlyTest(n) {
+		return true
+	}
+	if c, ok := n.(*ast.CallExpr); ok && m.em && exprText(m.p.fset, c.Fun) == "checkOnce" {
+		return true
+	}
 	switch x := n.(type) {
 	case *ast.SelectorExpr:
 		_, _, ok := m.viewRead(x)
@@ -117,6 +151,22 @@ func (m *imp) smEffect(n ast.Node) bool {
 // smHoist: the pre-binds of an effect of script mode (a read of the shrinker's state, a call of a function value, a
 // call of a translated function); walk hoists what the operands need first
 func (m *imp) smHoist(n ast.Node, walk func(ast.Node)) ([]string, bool) {
+	if m.isEarlyTest(n) {
+		it, ty := m.expr(ast.NewIdent("iter"), "i64")
+		if ty != "i64" {
+			panic("translate(em): the early-exit test without an int `iter`")
+		}
+		tmp := m.fresh("c")
+		m.idxTmp[n], m.idxTy[n] = tmp, "bool"
+		m.t.env[tmp] = "bool"
+		return []string{fmt.Sprintf("(Go.EM.early %s) >>= fun %s =>", it, tmp)}, true
+	}
+	if c, ok := n.(*ast.CallExpr); ok && m.em && exprText(m.p.fset, c.Fun) == "checkOnce" {
+		tmp := m.fresh("r")
+		m.idxTmp[c], m.idxTy[c] = tmp, "errc"
+		m.t.env[tmp] = "errc"
+		return []string{fmt.Sprintf("Go.EM.checkOnce >>= fun %s =>", tmp)}, true
+	}
 	switch x := n.(type) {
 	case *ast.SelectorExpr:
 		eff, ty, ok := m.viewRead(x)
